@@ -569,7 +569,7 @@ def call_base_rule(m, rid):
 def separator_rule(m, rid):
     r = RuleResult(rid, "SeparatorBase.match, decided as a table: `[lhs] : [rhs]` is cut at the first ':' and each side reaches its class with "
                         "the blanks around the ':' removed (the printer writes `lhs : rhs`, so a blank left on a piece breaks the re-parse)")
-    r.floor = 8
+    r.floor = 12
     f = m.method(m.key("SeparatorBase", UTILS), "match")
     if f is None:
         r.error("SeparatorBase.match vanished")
@@ -580,10 +580,16 @@ def separator_rule(m, rid):
         ("a:b", {}, ("a", "b")), ("a : b", {}, ("a", "b")), ("a :  - 1", {}, ("a", "- 1")), ("- 9 : - 1", {}, ("- 9", "- 1")),
         (":b", {}, (None, "b")), ("a:", {}, ("a", None)), (": - 10", {}, (None, "- 10")), ("a : b : c", {}, ("a", "b : c")),
         ("ab", {}, None), ("", {}, None), (":b", {"require_lhs": True}, None), ("a :", {"require_rhs": True}, None),
+        # a rule that has no class for one side (`lower :` of an assumed-shape spec, `: upper`) refuses text on that side
+        ("a:b", {"_classes": ("L", None)}, None), ("a:b", {"_classes": (None, "R")}, None),
+        ("a:", {"_classes": ("L", None)}, ("a", None)), (":b", {"_classes": (None, "R")}, (None, "b")),
+        ("1 : n", {"_classes": ("L", None)}, None),
     ]
     for text, kw, want in cases:
         r.instances += 1
-        got = run(ev, f, [L, R, text], kw)
+        kw = dict(kw)
+        cl = kw.pop("_classes", ("L", "R"))
+        got = run(ev, f, [L if cl[0] else None, R if cl[1] else None, text], kw)
         if isinstance(got, PE.PyRaise):
             ok, shown = False, "raises %s" % got.exc_type
         elif got is None:
